@@ -524,6 +524,71 @@ _RULE = ("Hypothesis draws the swatch layout (4x6x3 chart or flat Nx3, N 6..40),
          "ground-truth / stage matrix (|A - A^T| > 0.05), a non-commuting stage list, or a fit not "
          "started from the identity; distinct = (swatch spec, class / modes, seeds)")
 
+# ---------------------------------------------------------------------------------------
+# 6. use inside the colour correction: white balance, then colour balance of the chosen class
+# ---------------------------------------------------------------------------------------
+
+
+def gen_colorcorrection(tier):
+    @st.composite
+    def strat(draw):
+        return {"cseed": draw(st.integers(0, 2**16)), "shape": [draw(st.sampled_from([200, 240, 300])),
+                                                                 draw(st.sampled_from([300, 330, 420]))],
+                "whitebalancing": draw(st.booleans()),
+                "colorbalancing": draw(st.sampled_from(["affine", "linear"])),
+                "truth": draw(st.sampled_from(["affine", "affine", "linear"])),
+                "mseed": draw(st.integers(0, 2**16))}
+
+    return strat()
+
+
+def check_colorcorrection_stages(case):
+    """ColorCorrection (darsia balancing) on a synthetic checker image equals applying the stage
+    balances one after the other: WhiteBalance fitted on the grey row (if enabled), then the plain
+    ColorBalance ("linear") or AffineBalance ("affine") fitted on the pre-balanced colour rows."""
+    import cv2
+
+    import darsia
+    from vf.props import c10
+
+    h, w = case["shape"]
+    rng = np.random.default_rng(case["mseed"])
+    ref = rng.integers(40, 216, size=(4, 6, 3)).astype(float) / 255.0
+    # observed colours = inverse-ish ground-truth map of the reference, so the fitted map is non-trivial
+    A = np.eye(3) + 0.12 * rng.uniform(-1, 1, size=(3, 3))
+    b = 0.06 * rng.uniform(-1, 1, size=3) if case["truth"] == "affine" else np.zeros(3)
+    obs = np.clip((ref - b) @ np.linalg.inv(A), 0.05, 0.95)
+    colors = np.round(obs * 255).astype(np.uint8)
+    img = c10._checker_image(h, w, colors, 0)
+    cfg = {"roi": c10._color_roi(h, w, 0), "active": True, "balancing": "darsia",
+           "colorbalancing": case["colorbalancing"], "whitebalancing": case["whitebalancing"], "clip": False}
+    corr = darsia.ColorCorrection(base=c10._custom_checker(ref.astype(np.float32)), config=cfg)
+    cv2.setRNGSeed(0)
+    got = np.asarray(corr.correct_array(img), dtype=float)
+    t = {"wb": case["whitebalancing"], "cb": case["colorbalancing"], "truth": case["truth"]}
+    # sequential reference on the known swatch colours
+    sw = colors.astype(float) / 255.0
+    x = img.astype(float) / 255.0
+    cur = sw.copy()
+    if case["whitebalancing"]:
+        wb = cb.WhiteBalance()
+        wb.find_balance(cur[-1], ref[-1])
+        cur = wb.apply_balance(cur)
+        x = wb.apply_balance(x)
+    stage = cb.AffineBalance() if case["colorbalancing"] == "affine" else cb.ColorBalance()
+    stage.find_balance(cur[:-1], ref[:-1])
+    want = stage.apply_balance(x)
+    err = float(np.abs(got - want).max())
+    # swatch extraction (k-means on uniform patches) is exact to ~2e-5; the Powell fits amplify that
+    if err > 3e-3:
+        raise Violation(f"colorcorrection-not-staged:{case['colorbalancing']}",
+                        f"ColorCorrection(whitebalancing={case['whitebalancing']}, colorbalancing="
+                        f"{case['colorbalancing']!r}) differs from white balance then "
+                        f"{type(stage).__name__} applied in sequence by {err:.2e}", t)
+    return Outcome(True, case, (f"wb-{case['whitebalancing']}", f"cb-{case['colorbalancing']}",
+                                f"truth-{case['truth']}"))
+
+
 PROP = Prop(
     pid="C12",
     rule=_RULE,
@@ -551,6 +616,8 @@ PROP = Prop(
             n={"quick": 160, "thorough": 4000}, shards={"quick": 4, "thorough": 16}),
         Sub("staged_recovers_composed_map", check_staged_recovers_composed_map, gen=gen_composed,
             n={"quick": 240, "thorough": 6000}, shards={"quick": 3, "thorough": 16}),
+        Sub("colorcorrection_is_staged_composition", check_colorcorrection_stages, gen=gen_colorcorrection,
+            n={"quick": 48, "thorough": 1200}, shards={"quick": 4, "thorough": 16}),
         Sub("row_vector_convention", check_row_vector, gen=gen_rowvec,
             n={"quick": 400, "thorough": 8000}, shards={"quick": 1, "thorough": 4}),
     ],
